@@ -28,7 +28,7 @@ RULE = ('(a) requirement x version grid: operators {bare,^,~,=,<,<=,>,>=} x part
         'all/any arity 0-3 and not; depth 3 = not(t)/all|any(t)/all|any(t,u) over those (thorough: all, quick: every twelfth by index+seed) '
         '+ seeded arity-3 samples; each under all 40 assignments; space-only renderings demand the exact Boolean of the '
         'generated tree, tab/newline renderings and string values holding blanks/delimiters demand "MesonException or that '
-        'Boolean"; non-trivial = >=2 operators, distinct by (tree, assignment). (d) malformed: every token string of '
+        'Boolean"; non-trivial = >=2 operators, distinct by (tree, assignment). (c3) four realistic rustc cfg tables (linux, wasm32, windows-msvc, bare-metal arm): atoms cross every name with every value (a bare word that is only some key\'s value is absent), trees not/all/any over pairs. (d) malformed: every token string of '
         'length<=4 (thorough 5) over 13 tokens, single-token mutations of rendered trees, Hypothesis text; malformed per the '
         'Cargo grammar => MesonException required; any other exception type anywhere is a failure.')
 ASSUMPTIONS = [
@@ -743,6 +743,62 @@ def _cfg_shard(shard: T.Tuple[str, int, int, int, int], ev: Evidence, fails: T.L
     ev.event('cfg/tab_newline_rejected_with_MesonException', n_weak_mesonexc)
 
 
+# (c3) realistic configurations: the name/value tables `rustc --print cfg` prints for a few targets, as meson stores them
+# (name -> value, '' for a name-only cfg).  Atoms cross names and values: a bare word that only occurs as the VALUE of another
+# key is absent, a key compared with another key's value is false.  Left out (the API cannot tell them apart, both answers are
+# defensible): a bare name that the table holds with a non-empty value, and name = "" at all.
+REAL_CFGS: T.List[T.Dict[str, str]] = [
+    {'debug_assertions': '', 'panic': 'unwind', 'target_arch': 'x86_64', 'target_endian': 'little', 'target_env': 'gnu',
+     'target_family': 'unix', 'target_os': 'linux', 'target_pointer_width': '64', 'target_vendor': 'unknown', 'unix': ''},
+    {'panic': 'abort', 'target_arch': 'wasm32', 'target_endian': 'little', 'target_family': 'wasm', 'target_os': 'unknown',
+     'target_pointer_width': '32', 'target_vendor': 'unknown'},
+    {'debug_assertions': '', 'panic': 'unwind', 'target_arch': 'x86_64', 'target_endian': 'little', 'target_env': 'msvc',
+     'target_family': 'windows', 'target_os': 'windows', 'target_pointer_width': '64', 'target_vendor': 'pc', 'windows': ''},
+    {'panic': 'abort', 'target_arch': 'arm', 'target_endian': 'little', 'target_os': 'none', 'target_pointer_width': '32',
+     'target_vendor': 'unknown', 'target_abi': 'eabihf', 'feature': 'std', 'std': ''},
+]
+
+
+def real_atoms(d: T.Dict[str, str]) -> T.List[T.Any]:
+    words = sorted(set(d) | set(v for v in d.values() if v) | {'unix', 'windows', 'wasm', 'test', 'proc_macro'})
+    values = sorted(set(v for v in d.values() if v) | {'unix', 'linux'})
+    out: T.List[T.Any] = [['name', w] for w in words if not d.get(w)]          # name-only or absent
+    for k in sorted(set(d) | {'target_env', 'missing'}):
+        for v in values:
+            out.append(['eq', k, v])
+    return out
+
+
+def _cfg_real_shard(shard: int, ev: Evidence, fails: T.List[Failure]) -> None:
+    from mesonbuild.cargo.cfg import eval_cfg
+    from mesonbuild.mesonlib import MesonException
+    sigs: T.Set[str] = set()
+    n = nt = 0
+    d = REAL_CFGS[shard]
+    atoms = real_atoms(d)
+    true_atoms = [a for a in atoms if R.cfg_eval(a, d)]
+    trees: T.List[T.Any] = list(atoms) + [['not', a] for a in atoms]
+    for i, a in enumerate(atoms):
+        for b in (true_atoms + atoms[i + 1:i + 4]):
+            trees.append(['all', [a, b]])
+            trees.append(['any', [b, a]])
+            trees.append(['not', ['any', [a, b]]])
+    for idx, tree in enumerate(trees):
+        n += 1
+        if R.cfg_ops(tree) >= 1:
+            nt += 1
+        f = check_cfg_tree(eval_cfg, MesonException, tree, d, EXACT_STYLES[idx % 3])
+        if f is not None and f.sig not in sigs:
+            f.sig = f.sig.replace('cfg/eval:', 'cfg/eval-realistic:')
+            sigs.add(f.sig)
+            fails.append(f)
+    if shard == 1:
+        ev.case({'cfgs': d, 'tree': ['not', ['name', 'wasm']], 'text': 'cfg(not(wasm))', 'want': True}, cls='cfg_realistic_table', n=0)
+    ev.evaluations += n
+    ev.add_distinct(nt)
+    ev.event('cfg/realistic_table_evals', n)
+
+
 WEAK_VALUES = ['a b', 'v,w', '(v)', 'a=b', 'v ', 'a  b', ')', ',', '=', 'all x', 'v\tw', 'not(v)', 'v, w', 'x)',
                ' v', '  v', '\tv', ' ', ' v w']     # the last five: leading blank (class of the repaired defect G8 / ab0f403)
 
@@ -1271,6 +1327,7 @@ def run(ctx: Ctx) -> None:
     pmap(ctx, _cfg_shard, [('l3', lo, hi, ctx.seed, 12 if ctx.quick else 1) for lo, hi in _ranges(total3, 64)])
     pmap(ctx, _cfg_shard, [('sample', lo, hi, ctx.seed, 1) for lo, hi in _ranges(ctx.n(4000, 60000), 32)])
     pmap(ctx, _cfg_value_shard, [0])
+    pmap(ctx, _cfg_real_shard, list(range(len(REAL_CFGS))))
     # (d) malformed
     maxlen = 4 if ctx.quick else 5
     pmap(ctx, _malformed_enum_shard, [((), 1)] + [((a, b), maxlen) for a in TOKS for b in TOKS])
